@@ -134,8 +134,10 @@ class _InlineFunction(XPathFunction):
         self.check_arguments_number(len(args))
 
         context = copy(context)
-        if self.variables and context is not None:
-            context.variables.update(self.variables)
+        if context is not None:
+            # Use a private map for the bindings of the closure and of the parameters,
+            # the copy of the context shares the variables of the caller's context.
+            context.variables = {**context.variables, **(self.variables or {})}
 
         if self.varnames is None:
             self.varnames = []
